@@ -21,10 +21,11 @@ def run(prop, path):
     clause, line, n = v[:3]
     if len(v) > 3:
         # soft clauses met on the way (the walk continued): the recorded one counts if it is among them
-        alts, _, at = v[3].partition("@")
         want = (d.get("verdict") or [""])[0]
-        if want in alts.split("|") and clause != want:
-            clause, line = want, int(at) if at else line
+        for a in v[3].split("|"):
+            nm, _, at = a.partition("@")
+            if nm == want and clause != want:
+                clause, line = want, int(at) if at else line
     print("trace %s: verdict %s at event %d (recorded: %s)" % (tr["id"], clause, line, d.get("verdict")))
     if clause != "ok":
         ev = tr.get("ev") or tr.get("a")
